@@ -115,3 +115,10 @@ f("numpy.array2string", arrays=("a",), result="text")
 f("numpy.trapezoid", arrays=("y", "x"), flags={"x": ["array", None]}, result=("special", "trapezoid"))
 f("numpy.take", arrays=("a",), result=same("a"))
 f("numpy.apply_over_axes", arrays=("a",), result=("special", "higher-order"))
+
+
+# NumPy facts about the rank of results (used so that "a 0-d result must be a quantity" is not
+# demanded of functions that never return 0-d arrays): joining / outer-product functions return
+# arrays with at least one dimension
+MIN_RANK_1 = {"numpy.concatenate", "numpy.stack", "numpy.vstack", "numpy.hstack", "numpy.dstack",
+              "numpy.column_stack", "numpy.block", "numpy.outer", "numpy.linalg.outer", "numpy.kron"}
